@@ -47,6 +47,8 @@ def generate(seed, tier):
         if long_chain and i == 0:
             ln = rng.randint(501, 700)
         branches.append({'len': ln, 'txs': rng.random() < 0.4})
+        if ln > 0 and rng.random() < 0.025:
+            branches[-1].update({'fat_at': rng.randrange(ln), 'fat_short': rng.choice([0, 0, 1, 31, 32, 500])})
     fresh = rng.random() < 0.4
     nodes = []
     for i in range(n):
@@ -132,7 +134,10 @@ def execute(script):
             if cfg['fresh'] and j == br['len'] - 1:
                 ts = max(ts, EPOCH - 30)
             n0 = len(sim.stored)
-            sim.op_mine({'op': 'mine', 'tip': tip, 'txs': txs, 'miner': (bi * 5 + j) % 12, 'ts_abs': ts, 'clock': 0})
+            m_ = {'op': 'mine', 'tip': tip, 'txs': txs, 'miner': (bi * 5 + j) % 12, 'ts_abs': ts, 'clock': 0}
+            if br.get('fat_at') is not None and j == br['fat_at'] % br['len']:
+                m_.update({'fat': True, 'fat_short': br.get('fat_short', 0)})       # a block of (nearly) the maximum size on the wire
+            sim.op_mine(m_)
             if len(sim.stored) == n0 or sim.dead:
                 break
             tip = len(sim.stored) - 1
